@@ -231,6 +231,11 @@ func C15(r *vf.Run) {
 		cells := map[string]int64{}
 		for k := 0; k < 160 && !r.TooMany(); k++ {
 			calls, base, _ := genHistory(g, histOpts{maxCalls: 120, listing: true, dataBlocks: true, withRefs: g.Intn(2) == 0, withDup: false})
+			if k%10 == 3 {
+				if fl := flushToBankEnd(g, calls, true); fl != nil {
+					calls, base = fl, "ends-at-bank-end"
+				}
+			}
 			if k%40 == 7 {
 				// a program longer than 65,535 bytes: one big table early on, code and data after it
 				calls, base, _ = genHistory(g, histOpts{maxCalls: 40, listing: true, dataBlocks: true})
